@@ -22,7 +22,7 @@ import (
 // step kinds. Client kinds start with 'c', backend kinds with 'b'.
 var clientKinds = []string{
 	"c:retry-ok", "c:retry-no-ech", "c:retry-other-config-id", "c:retry-other-suite", "c:retry-nonempty-enc", "c:retry-fresh-context",
-	"c:retry-replayed-seq0", "c:retry-sni-changed", "c:retry-alpn-changed", "c:retry-inner-without-ech",
+	"c:retry-replayed-seq0", "c:retry-sni-changed", "c:retry-alpn-changed", "c:retry-inner-without-ech", "c:retry-outer-sni-not-public-name",
 	"c:ccs", "c:handshake-other", "c:appdata", "c:alert",
 }
 var backendKinds = []string{"b:server-hello", "b:hrr", "b:ccs", "b:appdata", "b:alert"}
@@ -61,7 +61,7 @@ func (m *model) client(k string) expect {
 		case "c:retry-no-ech":
 			m.dead = true
 			return expect{"abort", "missing_extension"}
-		case "c:retry-other-config-id", "c:retry-other-suite", "c:retry-nonempty-enc", "c:retry-sni-changed", "c:retry-alpn-changed", "c:retry-inner-without-ech":
+		case "c:retry-other-config-id", "c:retry-other-suite", "c:retry-nonempty-enc", "c:retry-sni-changed", "c:retry-alpn-changed", "c:retry-inner-without-ech", "c:retry-outer-sni-not-public-name":
 			m.dead = true
 			return expect{"abort", "illegal_parameter"}
 		case "c:retry-fresh-context", "c:retry-replayed-seq0":
@@ -131,7 +131,12 @@ func (fx *fixture) build(rng *mrand.Rand, k string) (rec []byte, inner *tlswire.
 		i := in.Find(tlswire.ExtECH)
 		in.Exts = append(in.Exts[:i], in.Exts[i+1:]...)
 	}
-	outer := echgen.GenOuterBase(rng, fx.key.PublicName, nil, 0)
+	outerName := fx.key.PublicName
+	if k == "c:retry-outer-sni-not-public-name" {
+		// an authentic retry whose outer hello no longer names the config's public name (the rule of the first hello applies to the retry too)
+		outerName = "not-" + fx.key.PublicName
+	}
+	outer := echgen.GenOuterBase(rng, outerName, nil, 0)
 	outer.SessionID = append([]byte{}, fx.first.Outer.SessionID...)
 	in.SessionID = append([]byte{}, outer.SessionID...)
 	if k == "c:retry-no-ech" {
@@ -251,7 +256,7 @@ func runHistory(r *mon.Run, work string, idx int, rng *mrand.Rand, keys []echgen
 func TestCheck(t *testing.T) {
 	r := mon.Start(t, "C06", "exploration")
 	defer r.Finish()
-	r.SetRule("histories = accepted first hello followed by an interleaving of client records {well-formed retry (next sequence number), retry without ECH, other config id, other suite, non-empty enc, fresh HPKE context, " +
+	r.SetRule("histories = accepted first hello followed by an interleaving of client records {well-formed retry (next sequence number), retry without ECH, outer SNI not the public name, other config id, other suite, non-empty enc, fresh HPKE context, " +
 		"first-sequence-number replay, changed inner SNI, changed inner ALPN, inner without ECH ext, change_cipher_spec, other handshake, application data, alert} and backend records {ServerHello, HelloRetryRequest, " +
 		"change_cipher_spec, application data, alert}; ALL histories up to length 3 (quick) / 4 (thorough) are enumerated, longer ones (up to 14) PRNG-drawn. One driver alternates feed+Read and Write, so call order is the history. " +
 		"Oracle: a reference state machine written from the statement gives, per client record, forwarded-verbatim / replaced-by-reconstructed-inner / abort(class+alert); backend records must always be forwarded unchanged. " +
